@@ -301,6 +301,8 @@ def run(ctx, rep):
         rep.check("C17.resid", "both decoders unfold Rice residuals with the same operations", sig["decode"] == sig["stream"], "", str(sig["decode"])[:200], "decode.rs: %s ; stream.rs: %s" % (sig["decode"], sig["stream"]))
 
     fold_rules(F, rep, "C17")
+    from rules import C03
+    C03.midside_parity_rules(F, rep, "C17")
 
     # ---- C17.panic --------------------------------------------------------------------------------------------------------
     auditlib.panic_audit(ctx, rep, "C17", ["G_stream_w"], floor_sites=30)
